@@ -21,7 +21,7 @@ structure IC.Wf (c : IC FinFun) : Prop where
   sources : c.sources.WF
   values : c.values.WF
 
-theorem IC.wf_iff (c : IC FinFun) : c.wf = true ↔ c.Wf := by
+theorem IC.wf_iff_Wf (c : IC FinFun) : c.wf = true ↔ c.Wf := by
   simp only [IC.wf, Bool.and_eq_true, FinFun.wf_iff]
   exact ⟨fun ⟨⟨a, b⟩, c⟩ => ⟨a, b, c⟩, fun ⟨a, b, c⟩ => ⟨⟨a, b⟩, c⟩⟩
 
@@ -33,8 +33,8 @@ structure HG.Wf (h : HG O A) : Prop where
   stgt : h.s.values.target = h.w.length
   ttgt : h.t.values.target = h.w.length
 
-theorem HG.wf_iff (h : HG O A) : h.wf = true ↔ h.Wf := by
-  simp only [HG.wf, Bool.and_eq_true, IC.wf_iff, beq_iff_eq]
+theorem HG.wf_iff_Wf (h : HG O A) : h.wf = true ↔ h.Wf := by
+  simp only [HG.wf, Bool.and_eq_true, IC.wf_iff_Wf, beq_iff_eq]
   exact ⟨fun ⟨⟨⟨⟨⟨a, b⟩, c⟩, d⟩, e⟩, f⟩ => ⟨a, b, c, d, e, f⟩,
     fun ⟨a, b, c, d, e, f⟩ => ⟨⟨⟨⟨⟨a, b⟩, c⟩, d⟩, e⟩, f⟩⟩
 
@@ -45,8 +45,8 @@ structure OHG.Wf (f : OHG O A) : Prop where
   stgt : f.s.target = f.h.w.length
   ttgt : f.t.target = f.h.w.length
 
-theorem OHG.wf_iff (f : OHG O A) : f.wf = true ↔ f.Wf := by
-  simp only [OHG.wf, Bool.and_eq_true, HG.wf_iff, FinFun.wf_iff, beq_iff_eq]
+theorem OHG.wf_iff_Wf (f : OHG O A) : f.wf = true ↔ f.Wf := by
+  simp only [OHG.wf, Bool.and_eq_true, HG.wf_iff_Wf, FinFun.wf_iff, beq_iff_eq]
   exact ⟨fun ⟨⟨⟨⟨a, b⟩, c⟩, d⟩, e⟩ => ⟨a, b, c, d, e⟩,
     fun ⟨a, b, c, d, e⟩ => ⟨⟨⟨⟨a, b⟩, c⟩, d⟩, e⟩⟩
 
@@ -1035,8 +1035,8 @@ theorem HArrow.isConvexSubgraph_spec (B : Backend) (hB : B.Lawful) (m : HArrow O
     ∃ b, m.isConvexSubgraph B = .ok b ∧
       (b = true ↔ Convex (⟨m.source.w, m.source.toPlainEdges, [], []⟩ : PDiag O A)
         ⟨m.target.w, m.target.toPlainEdges, [], []⟩ m.wFn m.xFn) := by
-  have hT : m.target.wf = true := (HG.wf_iff _).2 hw.target
-  have hS : m.source.wf = true := (HG.wf_iff _).2 hw.source
+  have hT : m.target.wf = true := (HG.wf_iff_Wf _).2 hw.target
+  have hS : m.source.wf = true := (HG.wf_iff_Wf _).2 hw.source
   have hlenE : m.source.toPlainEdges.length = m.x.table.length := by
     rw [toPlainEdges_length _ hS, ← h3]; rfl
   have hlenN : m.source.w.length = m.w.table.length := h1.symm
